@@ -38,10 +38,19 @@ ASSUMPTIONS = ["reference stop rule harness/oracles.py:reference_stop_index (fir
                "a real optimizer hanging inside optimization_step would be reported as inconclusive by the watchdog"]
 
 
-def run_scripted(fitness, pop, max_cycles, fe, es):
+def run_scripted(fitness, pop, max_cycles, fe, es, configure=None):
     cfg = scripted.ScriptConfig(population_size=pop, max_cycles=max_cycles, fitness_error=fe,
                                 early_stopping=None if es is None else EarlyStopping(patience=es[0], min_delta=es[1]))
-    opt = scripted.RateScriptOptimizer(cfg, fitness_script=fitness, pop_size=pop)
+    if configure is None:
+        opt = scripted.RateScriptOptimizer(cfg, fitness_script=fitness, pop_size=pop)
+    else:
+        # the configuration arrives through set_config_parameters (as HyperTuner does it): on a bare instance
+        # ("set"), or on one constructed with other stopping options ("reset")
+        first = None if configure == "set" else scripted.ScriptConfig(
+            population_size=pop, max_cycles=max_cycles + 3, fitness_error=None,
+            early_stopping=EarlyStopping(patience=1 if es is None or es[0] > 1 else 5, min_delta=0.5))
+        opt = scripted.RateScriptOptimizer(first, fitness_script=fitness, pop_size=pop)
+        opt.set_config_parameters(cfg.model_dump())
     with contextlib.redirect_stdout(io.StringIO()):
         res = opt.optimize(scripted.dummy_task())
     return opt.steps_run, res
@@ -56,7 +65,8 @@ def check_scripted(payload):
     if k is None:
         return [], None
     try:
-        steps, res = run_scripted(fitness, payload["pop"], payload["max_cycles"], payload["fe"], es)
+        steps, res = run_scripted(fitness, payload["pop"], payload["max_cycles"], payload["fe"], es,
+                                  payload.get("configure"))
     except Exception as e:  # noqa: BLE001
         return [("C04|model|raises", f"{type(e).__name__}: {e}"[:300])], k
     out = []
@@ -133,7 +143,8 @@ def hyp_case(draw):
     fe = draw(st.one_of(st.none(), st.sampled_from([0.0, 0.1, 0.5]), st.floats(-0.5, 1.5, allow_nan=False),
                         st.sampled_from([abs(1 - f) for f in fit])))
     return {"fitness": fit + [fit[-1] + 0.25, fit[-1] - 0.125], "pop": draw(st.sampled_from([1, 2])),
-            "max_cycles": draw(st.integers(1, 40)), "fe": fe, "es": None if es is None else list(es)}
+            "max_cycles": draw(st.integers(1, 40)), "fe": fe, "es": None if es is None else list(es),
+            "configure": draw(st.sampled_from([None, None, "set", "reset"]))}
 
 
 def judge_real(spec, obs):
@@ -181,7 +192,8 @@ def run_shard(shard, tier, seed):
             for h in enumerate_histories(mc, fe, es, L):
                 for pop in (1, 2, 4):
                     payload = {"fitness": [1.0 - r for r in pad(h)], "pop": pop, "max_cycles": mc, "fe": fe,
-                               "es": None if es is None else list(es)}
+                               "es": None if es is None else list(es),
+                               "configure": {1: None, 2: "set", 4: "reset"}[pop]}
                     vio, k = check_scripted(payload)
                     nt, crit = nontrivial_model(h, k, mc, fe, es)
                     ctx.case(payload, nt, ["model:stopped_by:" + "+".join(crit)])
